@@ -84,3 +84,751 @@ Proof.
   intros H. unfold xap_vhashin. rewrite xap_vparse_signed by exact H. cbn [bind]. f_equal.
   unfold xap_v_digest_from, xap_v_digest_len, xap_signed. cbn [Z.add]. now apply C12.Proofs.zslice_head.
 Qed.
+
+(* ================================================================== slices of prefixes *)
+Lemma zslice_ztake_inner {A} a b m (l : list A) : 0 <= a -> b <= m -> zslice a b (ztake m l) = zslice a b l.
+Proof.
+  intros Ha Hb. unfold zslice. rewrite C12.Proofs.zdrop_ztake by lia. apply C12.Proofs.ztake_ztake. lia.
+Qed.
+Lemma zslice_to_end {A} a (l : list A) : 0 <= a -> zslice a (zlen l) l = zdrop a l.
+Proof.
+  intros Ha. unfold zslice. destruct (Z_le_gt_dec a (zlen l)).
+  - apply ztake_all. rewrite zlen_zdrop by lia. lia.
+  - rewrite zdrop_all by lia. apply ztake_neg. lia.
+Qed.
+Lemma zslice_0 {A} b (l : list A) : zslice 0 b l = ztake b l.
+Proof. unfold zslice. now rewrite zdrop_0, Z.sub_0_r. Qed.
+
+(* ================================================================== zipslicer.FindDirectory reads only the first `size` bytes *)
+Lemma zip_window_agree f g zs : 0 <= zs -> zs <= zlen f -> zs <= zlen g -> ztake zs f = ztake zs g ->
+  zip_window f zs = zip_window g zs.
+Proof.
+  intros H0 Hf Hg E. unfold zip_window, zip_find_pos, zip_find_short, zip_find_short_skip, zip_find_short_pos,
+    zip_directory64LocLen, zip_directoryEndLen.
+  destruct ((zs - 22 - 20 <? 0) && (zs >=? 22)) eqn:Es.
+  - replace (zlen f - 0 <? 20 + 22 - - (zs - 22 - 20)) with false by lia.
+    replace (zlen g - 0 <? 20 + 22 - - (zs - 22 - 20)) with false by lia.
+    replace (0 + (20 + 22 - - (zs - 22 - 20))) with zs by lia. now rewrite !zslice_0, E.
+  - destruct (zs - 22 - 20 <? 0) eqn:Ep; [reflexivity|].
+    replace (zlen f - (zs - 22 - 20) <? 20 + 22) with false by lia.
+    replace (zlen g - (zs - 22 - 20) <? 20 + 22) with false by lia.
+    rewrite <- (zslice_ztake_inner _ _ zs f), <- (zslice_ztake_inner _ _ zs g) by lia. now rewrite E.
+Qed.
+
+Lemma zip64_inside_agree f g zs : 0 <= zs -> zs <= zlen f -> zs <= zlen g -> ztake zs f = ztake zs g ->
+  zip64_inside_at f zs = zip64_inside_at g zs.
+Proof. intros. unfold zip64_inside_at. now rewrite (zip_window_agree f g zs). Qed.
+
+Lemma zip_find_dir_agree f g zs : 0 <= zs -> zs <= zlen f -> zs <= zlen g -> ztake zs f = ztake zs g ->
+  zip64_inside_at f zs = true -> zip_find_dir f zs = zip_find_dir g zs.
+Proof.
+  intros H0 Hf Hg E Hin. unfold zip_find_dir. unfold zip64_inside_at in Hin.
+  rewrite <- (zip_window_agree f g zs) by assumption.
+  destruct (zip_window f zs) as [w| |]; cbn [bind]; try reflexivity.
+  destruct (zip_no_end_record _); [reflexivity|].
+  destruct (zip_needs_zip64 _ _ _); [|reflexivity].
+  destruct (zip_no_locator _); [reflexivity|].
+  set (off := to_i64 (fld ziploc_ix_Offset (dec_struct ziploc_widths (ztake ziploc_size w)))) in *.
+  unfold zip_directory64EndLen in *.
+  destruct (off <? 0) eqn:Eo; cbn [orb]; [reflexivity|].
+  replace (zlen f <? off + 56) with false by lia. replace (zlen g <? off + 56) with false by lia.
+  rewrite <- (zslice_ztake_inner off (off + 56) zs f), <- (zslice_ztake_inner off (off + 56) zs g) by lia.
+  now rewrite E.
+Qed.
+
+(* ================================================================== the signer's digest, step by step *)
+Definition XM := 1399873880.     (* "XapS" *)
+(* the last ten bytes of a file, read as a trailer *)
+Definition f_trl (f : bytes) : list Z := dec_struct xaptr_widths (zslice (zlen f - 10) (zlen f) f).
+Definition t_magic (f : bytes) : Z := fld xaptr_ix_Magic (f_trl f).
+Definition t_size (f : bytes) : Z := fld xaptr_ix_TrailerSize (f_trl f).
+
+Lemma trailer_size_eq f : xap_trailer_size f =
+  if zlen f <? 10 then 0 else if negb (t_magic f =? XM) || (t_size f + 10 >? zlen f) then 0 else t_size f + 10.
+Proof.
+  unfold xap_trailer_size, xap_ts_too_short, xap_ts_trailer_off, xap_ts_trailer_len, xaptr_size, xap_ts_no_trailer, xap_ts_returns.
+  destruct (zlen f <? 10) eqn:E; [reflexivity|].
+  replace ((zlen f - 10 <? 0) || (zlen f - (zlen f - 10) <? 10) || (10 <? 10)) with false by lia.
+  replace (zlen f - 10 + 10) with (zlen f) by lia. fold (f_trl f). fold (t_magic f). fold (t_size f). unfold XM.
+  destruct (negb (t_magic f =? 1399873880) || (t_size f + 10 >? zlen f)); reflexivity.
+Qed.
+Lemma tf_trailer_eq f : xap_tf_trailer f = xap_trailer_size f.
+Proof. reflexivity. Qed.
+Lemma in_range_nth ws vs : in_range ws vs -> forall i, 0 <= nth i vs 0.
+Proof.
+  intros R. induction R as [|w v ws' vs' Hwv _ IH]; intros [|i]; cbn [nth]; try lia; try apply IH.
+Qed.
+Lemma all_bytes_nonneg_fld ws i c : nonneg_ws ws -> all_bytes c = true -> 0 <= fld i (dec_struct ws c).
+Proof. intros Hn Hb. unfold fld. exact (in_range_nth _ _ (dec_struct_range ws c Hn Hb) i). Qed.
+Lemma nonneg_xaptr : nonneg_ws xaptr_widths. Proof. repeat constructor; lia. Qed.
+Lemma nonneg_xaphd : nonneg_ws xaphd_widths. Proof. repeat constructor; lia. Qed.
+Lemma t_size_nonneg f : all_bytes f = true -> 0 <= t_size f.
+Proof. intros H. apply all_bytes_nonneg_fld; [exact nonneg_xaptr|now apply all_bytes_zslice]. Qed.
+Lemma trailer_size_range f : all_bytes f = true -> 0 <= xap_trailer_size f <= zlen f.
+Proof.
+  intros H. rewrite trailer_size_eq. pose proof (t_size_nonneg f H). pose proof (zlen_nonneg f).
+  destruct (zlen f <? 10); [lia|]. destruct (negb (t_magic f =? XM) || (t_size f + 10 >? zlen f)) eqn:E; lia.
+Qed.
+
+Lemma remove_sig_eq cd : xap_remove_signature cd = Ok (
+  if zlen cd <? 10 then cd else
+  if (t_magic cd =? XM) && (t_size cd + 10 <=? zlen cd) then ztake (zlen cd - (t_size cd + 10)) cd else cd).
+Proof.
+  unfold xap_remove_signature, xap_rm_too_short, xap_rm_trailer_start, xap_rm_has_trailer, xap_rm_new_size.
+  destruct (zlen cd <? 10) eqn:E; [reflexivity|].
+  replace (zlen cd - 10 <? 0) with false by lia. fold (f_trl cd). fold (t_magic cd). fold (t_size cd). unfold XM.
+  destruct ((t_magic cd =? 1399873880) && (t_size cd + 10 <=? zlen cd)) eqn:E2; [|reflexivity].
+  replace (zlen cd - (t_size cd + 10) <? 0) with false by lia. reflexivity.
+Qed.
+
+Lemma xap_tar_eq f : all_bytes f = true -> xap_tar f =
+  d <- zip_find_dir f (zlen f - xap_trailer_size f) ;;
+  if d <? 0 then Err E_OFFSET else if zlen f - d <? 0 then Err E_TAR else Ok (zdrop d f, zlen f).
+Proof.
+  intros Hb. pose proof (trailer_size_range f Hb) as R.
+  unfold xap_tar, xap_find_dir. rewrite tf_trailer_eq. unfold zip_tar_bad_trailer, zip_tar_find_size.
+  replace ((xap_trailer_size f <? 0) || (xap_trailer_size f >? zlen f)) with false by lia.
+  destruct (zip_find_dir f (zlen f - xap_trailer_size f)) as [d| |]; cbn [bind]; try reflexivity.
+  unfold zip_tar_cd_from, zip_tar_cd_size, zip_tar_cd_len, zip_tar_zip_len, zip_tar_zip_size, zip_tar_zip_from.
+  destruct (d <? 0) eqn:Ed; [reflexivity|]. destruct (zlen f - d <? 0) eqn:Es; [reflexivity|].
+  replace ((zlen f - d <? zlen f - d) || (zlen f <? zlen f) || (zlen f <? 0 + zlen f) || negb (0 =? 0)) with false by lia.
+  replace (d + (zlen f - d)) with (zlen f) by lia. rewrite zslice_to_end by lia. reflexivity.
+Qed.
+
+Lemma xap_digest_eq f : all_bytes f = true -> xap_digest f =
+  d <- zip_find_dir f (zlen f - xap_trailer_size f) ;;
+  if d <? 0 then Err E_OFFSET else if zlen f - d <? 0 then Err E_TAR else
+  cd' <- xap_remove_signature (zdrop d f) ;;
+  Ok (mkXapd (ztake d f ++ cd') (d + zlen cd') (zlen f - (d + zlen cd'))).
+Proof.
+  intros Hb. unfold xap_digest. rewrite xap_tar_eq by exact Hb.
+  destruct (zip_find_dir f (zlen f - xap_trailer_size f)) as [d| |]; cbn [bind]; try reflexivity.
+  destruct (d <? 0) eqn:Ed; [reflexivity|]. destruct (zlen f - d <? 0) eqn:Es; [reflexivity|]. cbn [bind fst snd].
+  unfold xap_body_size, xap_zip_size, xap_patch_start, xap_patch_len.
+  rewrite zlen_zdrop by lia. replace (zlen f - (zlen f - d)) with d by lia. reflexivity.
+Qed.
+
+(* C01 / C11: the signer's digest never panics (since relic commit f898997; before it a directory offset in the last ten
+   bytes of the file made removeSignature slice with a negative bound) *)
+Lemma xap_digest_no_panic f p : all_bytes f = true -> xap_digest f <> Panic p.
+Proof.
+  intros Hb. rewrite xap_digest_eq by exact Hb.
+  assert (Hz : forall g zs q, zip_find_dir g zs <> Panic q).
+  { intros g zs q. unfold zip_find_dir, zip_window.
+    destruct (zip_find_short _ _); [destruct (_ <? _)|destruct (_ <? _); [|destruct (_ <? _)]]; cbn [bind]; try discriminate;
+    (destruct (zip_no_end_record _); [discriminate|]); (destruct (zip_needs_zip64 _ _ _); [|discriminate]);
+    (destruct (zip_no_locator _); [discriminate|]); (destruct (_ || _); [discriminate|]); destruct (zip_no_end64 _); discriminate. }
+  destruct (zip_find_dir f _) as [d| |q] eqn:E; cbn [bind]; try discriminate; [|exfalso; exact (Hz _ _ _ E)].
+  destruct (d <? 0); [discriminate|]. destruct (_ <? 0); [discriminate|]. rewrite remove_sig_eq. cbn [bind]. discriminate.
+Qed.
+
+(* ================================================================== a file that ends in a consistent signature block *)
+(* g = z ++ h ++ b0 ++ tl : header h (8 bytes) announcing |b0|, trailer tl (10 bytes) with the magic and |b0| + 8; the
+   unknown fields are arbitrary *)
+Record sig_shape (h b0 tl : bytes) : Prop := mkShape {
+  sh_h : zlen h = 8;
+  sh_tl : zlen tl = 10;
+  sh_magic : fld xaptr_ix_Magic (dec_struct xaptr_widths tl) = XM;
+  sh_tsz : fld xaptr_ix_TrailerSize (dec_struct xaptr_widths tl) = zlen b0 + 8;
+  sh_ssz : fld xaphd_ix_SignatureSize (dec_struct xaphd_widths h) = zlen b0 }.
+
+Lemma magic_bytes x : all_bytes x = true -> zlen x = 4 -> (bytes_eqb x [88; 97; 112; 83] = true <-> le_dec x = XM).
+Proof.
+  intros Hb Hl. unfold bytes_eqb. rewrite list_eqb_Z_eq. split; [intros ->; reflexivity|].
+  intros E. rewrite <- (le_enc_dec x Hb). replace (length x) with 4%nat by (unfold zlen in Hl; lia). rewrite E. reflexivity.
+Qed.
+Lemma trl_fields tl : zlen tl = 10 ->
+  fld xaptr_ix_Magic (dec_struct xaptr_widths tl) = le_dec (ztake 4 tl) /\
+  fld xaptr_ix_TrailerSize (dec_struct xaptr_widths tl) = le_dec (zdrop 6 tl).
+Proof.
+  intros Hl. split.
+  - rewrite (fld_dec xaptr_widths xaptr_ix_Magic tl nonneg_xaptr) by (vm_compute; lia). cbn [firstn xaptr_ix_Magic wsum fold_right nth xaptr_widths].
+    now rewrite zslice_0.
+  - rewrite (fld_dec xaptr_widths xaptr_ix_TrailerSize tl nonneg_xaptr) by (vm_compute; lia).
+    cbn [firstn xaptr_ix_TrailerSize wsum fold_right nth xaptr_widths]. change (4 + (2 + 0)) with 6. change (6 + 4) with 10.
+    rewrite <- Hl. now rewrite zslice_to_end by lia.
+Qed.
+Lemma hdr_field h : zlen h = 8 -> fld xaphd_ix_SignatureSize (dec_struct xaphd_widths h) = le_dec (zslice 4 8 h).
+Proof.
+  intros Hl. rewrite (fld_dec xaphd_widths xaphd_ix_SignatureSize h nonneg_xaphd) by (vm_compute; lia).
+  cbn [firstn xaphd_ix_SignatureSize wsum fold_right nth xaphd_widths]. reflexivity.
+Qed.
+
+Section Shape.
+  Variables z h b0 tl : bytes.
+  Hypothesis S : sig_shape h b0 tl.
+  Let g := z ++ h ++ b0 ++ tl.
+  Lemma shape_len : zlen g = zlen z + zlen b0 + 18.
+  Proof. unfold g. rewrite !zlen_app, (sh_h _ _ _ S), (sh_tl _ _ _ S). lia. Qed.
+  Lemma shape_take : ztake (zlen z) g = z.
+  Proof. unfold g. now apply ztake_app_exact. Qed.
+  Lemma shape_from a b : 0 <= a -> zslice (zlen z + a) (zlen z + b) g = zslice a b (h ++ b0 ++ tl).
+  Proof. intros Ha. unfold g. rewrite zslice_app_r by lia. f_equal; lia. Qed.
+  Lemma shape_hdr : zslice (zlen z) (zlen z + 8) g = h.
+  Proof.
+    replace (zlen z) with (zlen z + 0) at 1 by lia. rewrite shape_from by lia.
+    rewrite zslice_0. apply ztake_app_exact. exact (sh_h _ _ _ S).
+  Qed.
+  Lemma shape_blob : zslice (zlen z + 8) (zlen z + (8 + zlen b0)) g = b0.
+  Proof.
+    rewrite shape_from by lia. replace (h ++ b0 ++ tl) with (h ++ b0 ++ tl) by reflexivity.
+    apply C12.Proofs.zslice_mid; [exact (sh_h _ _ _ S)|lia].
+  Qed.
+  Lemma shape_tail : zslice (zlen g - 10) (zlen g) g = tl.
+  Proof.
+    unfold g. replace (z ++ h ++ b0 ++ tl) with ((z ++ h ++ b0) ++ tl) by now rewrite <- !app_assoc.
+    apply zslice_last. exact (sh_tl _ _ _ S).
+  Qed.
+  Lemma shape_t_magic : t_magic g = XM.
+  Proof. unfold t_magic, f_trl. rewrite shape_tail. exact (sh_magic _ _ _ S). Qed.
+  Lemma shape_t_size : t_size g = zlen b0 + 8.
+  Proof. unfold t_size, f_trl. rewrite shape_tail. exact (sh_tsz _ _ _ S). Qed.
+  Lemma shape_trailer_size : xap_trailer_size g = zlen b0 + 18.
+  Proof.
+    pose proof (zlen_nonneg b0). pose proof (zlen_nonneg z). rewrite trailer_size_eq, shape_t_magic, shape_t_size, shape_len.
+    replace (zlen z + zlen b0 + 18 <? 10) with false by lia. rewrite Z.eqb_refl. cbn [negb orb].
+    replace (zlen b0 + 8 + 10 >? zlen z + zlen b0 + 18) with false by lia. lia.
+  Qed.
+  Lemma shape_vparse : xap_vparse g = Ok (Some (zlen z, b0)).
+  Proof.
+    pose proof (zlen_nonneg b0) as Hb. pose proof (zlen_nonneg z) as Hz. pose proof shape_len as Lg.
+    unfold xap_vparse, xap_v_trailer_off, xap_v_trailer_len.
+    replace (zlen g - 10 + 10) with (zlen g) by lia. replace (zlen g - 10 <? 0) with false by lia.
+    fold (f_trl g). fold (t_magic g). fold (t_size g). rewrite shape_t_magic, shape_t_size.
+    unfold xap_v_no_trailer, XM. cbn [Z.eqb Pos.eqb negb].
+    unfold xap_v_body_size. replace (zlen g - (zlen b0 + 8 + 10)) with (zlen z) by lia. replace (zlen z <? 0) with false by lia.
+    unfold xap_v_hdr_len. rewrite shape_hdr, (sh_ssz _ _ _ S).
+    unfold xap_v_size_mismatch. replace (zlen b0 =? zlen b0 + 8 - 8) with true by lia. cbn [negb].
+    unfold xap_v_blob_off. replace (zlen g - (zlen z + 8) <? zlen b0) with false by lia.
+    replace (zlen z + 8 + zlen b0) with (zlen z + (8 + zlen b0)) by lia. now rewrite shape_blob.
+  Qed.
+  Lemma shape_extract : xap_extract g = Ok (Some b0).
+  Proof. unfold xap_extract. now rewrite shape_vparse. Qed.
+  Lemma shape_vhashin : xap_vhashin g = Ok z.
+  Proof.
+    unfold xap_vhashin. rewrite shape_vparse. cbn [bind]. f_equal.
+    unfold xap_v_digest_from, xap_v_digest_len. cbn [Z.add]. rewrite zslice_0. exact shape_take.
+  Qed.
+  Lemma shape_spec_split : all_bytes tl = true -> xap_spec_split g = Ok (z, Some b0).
+  Proof.
+    intros Ht. pose proof (zlen_nonneg b0) as Hb. pose proof (zlen_nonneg z) as Hz. pose proof shape_len as Lg.
+    pose proof (sh_tl _ _ _ S) as Ltl. pose proof (sh_h _ _ _ S) as Lh.
+    destruct (trl_fields tl Ltl) as [Fm Fs]. rewrite (sh_magic _ _ _ S) in Fm. rewrite (sh_tsz _ _ _ S) in Fs.
+    assert (Em : zslice (zlen g - 10) (zlen g - 6) g = ztake 4 tl).
+    { replace (zlen g - 10) with (zlen z + (8 + zlen b0)) by lia. replace (zlen g - 6) with (zlen z + (8 + zlen b0 + 4)) by lia.
+      rewrite shape_from by lia. rewrite app_assoc. rewrite zslice_app_r by (rewrite zlen_app; lia).
+      rewrite zlen_app, Lh. replace (8 + zlen b0 - (8 + zlen b0)) with 0 by lia. replace (8 + zlen b0 + 4 - (8 + zlen b0)) with 4 by lia.
+      apply zslice_0. }
+    assert (Es : zdrop (zlen g - 4) g = zdrop 6 tl).
+    { unfold g. rewrite !app_assoc. rewrite zdrop_app_r by (rewrite !zlen_app; fold g; lia). f_equal. rewrite !zlen_app. fold g. lia. }
+    unfold xap_spec_split. replace (zlen g <? 10) with false by lia. rewrite Em.
+    replace (bytes_eqb (ztake 4 tl) [88; 97; 112; 83]) with true
+      by (symmetry; apply magic_bytes; [now apply all_bytes_ztake|apply zlen_ztake; lia|now symmetry]).
+    cbn [negb orb]. rewrite Es, <- Fs.
+    replace (zlen g - 10 - (zlen b0 + 8)) with (zlen z) by lia.
+    replace ((zlen b0 + 8 <? 8) || (zlen z <? 0)) with false by lia.
+    replace (zslice (zlen z + 4) (zlen z + 8) g) with (zslice 4 8 h).
+    2:{ rewrite shape_from by lia. symmetry. apply zslice_app_l; lia. }
+    rewrite <- hdr_field by exact Lh. rewrite (sh_ssz _ _ _ S).
+    replace (zlen b0 =? zlen b0 + 8 - 8) with true by lia. cbn [negb].
+    rewrite shape_take. replace (zlen z + 8 + zlen b0) with (zlen z + (8 + zlen b0)) by lia. now rewrite shape_blob.
+  Qed.
+  (* the signer's digest strips the block *)
+  Lemma shape_digest d : all_bytes g = true -> zip_find_dir g (zlen z) = Ok d -> 0 <= d <= zlen z ->
+    xap_digest g = Ok (mkXapd z (zlen z) (zlen b0 + 18)).
+  Proof.
+    intros Hg Hd Rd. pose proof (zlen_nonneg b0) as Hb. pose proof shape_len as Lg.
+    rewrite xap_digest_eq by exact Hg. rewrite shape_trailer_size.
+    replace (zlen g - (zlen b0 + 18)) with (zlen z) by lia. rewrite Hd. cbn [bind].
+    replace (d <? 0) with false by lia. replace (zlen g - d <? 0) with false by lia.
+    rewrite remove_sig_eq. cbn [bind].
+    assert (Ecd : zdrop d g = zdrop d z ++ h ++ b0 ++ tl) by (unfold g; apply zdrop_app_l; lia).
+    assert (Lcd : zlen (zdrop d g) = zlen z - d + zlen b0 + 18) by (rewrite zlen_zdrop by lia; lia).
+    assert (Etl : zslice (zlen (zdrop d g) - 10) (zlen (zdrop d g)) (zdrop d g) = tl).
+    { rewrite Ecd. replace (zdrop d z ++ h ++ b0 ++ tl) with ((zdrop d z ++ h ++ b0) ++ tl) by now rewrite <- !app_assoc.
+      apply zslice_last. exact (sh_tl _ _ _ S). }
+    replace (zlen (zdrop d g) <? 10) with false by lia.
+    unfold t_magic, t_size, f_trl. rewrite Etl, (sh_magic _ _ _ S), (sh_tsz _ _ _ S). rewrite Z.eqb_refl.
+    replace (zlen b0 + 8 + 10 <=? zlen (zdrop d g)) with true by lia. cbn [andb].
+    replace (zlen (zdrop d g) - (zlen b0 + 8 + 10)) with (zlen (zdrop d z)) by (rewrite zlen_zdrop by lia; lia).
+    rewrite Ecd, ztake_app_exact by reflexivity.
+    replace (ztake d g) with (ztake d z) by (unfold g; symmetry; apply ztake_app_l; lia).
+    rewrite ztake_zdrop. rewrite zlen_zdrop by lia. do 2 f_equal; lia.
+  Qed.
+  Lemma shape_protected : xap_protected g = z ++ zdrop 4 h ++ b0 ++ ztake 4 tl ++ zdrop 6 tl.
+  Proof.
+    pose proof (zlen_nonneg b0) as Hb. pose proof (zlen_nonneg z) as Hz. pose proof shape_len as Lg.
+    pose proof (sh_tl _ _ _ S) as Ltl. pose proof (sh_h _ _ _ S) as Lh.
+    destruct (trl_fields tl Ltl) as [_ Fs]. rewrite (sh_tsz _ _ _ S) in Fs.
+    assert (Es : zdrop (zlen g - 4) g = zdrop 6 tl).
+    { unfold g. rewrite !app_assoc. rewrite zdrop_app_r by (rewrite !zlen_app; fold g; lia). f_equal. rewrite !zlen_app. fold g. lia. }
+    unfold xap_protected. rewrite Es, <- Fs. replace (zlen g - 10 - (zlen b0 + 8)) with (zlen z) by lia.
+    replace (zlen z <? 0) with false by lia. rewrite shape_take. f_equal.
+    replace (zlen g - 6) with (zlen z + (8 + zlen b0 + 4)) by lia. rewrite shape_from by lia.
+    rewrite (zslice_split 4 8 (8 + zlen b0 + 4)) by lia.
+    rewrite (zslice_app_l 4 8 h) by lia. replace (zslice 4 8 h) with (zdrop 4 h) by (rewrite <- Lh; symmetry; apply zslice_to_end; lia).
+    rewrite <- app_assoc. f_equal.
+    rewrite zslice_app_r by lia. rewrite Lh. replace (8 - 8) with 0 by lia. replace (8 + zlen b0 + 4 - 8) with (zlen b0 + 4) by lia.
+    rewrite zslice_0. rewrite ztake_app_r by lia. replace (zlen b0 + 4 - zlen b0) with 4 by lia. now rewrite <- app_assoc.
+  Qed.
+End Shape.
+
+(* the block relic writes has the shape *)
+Lemma sigblock_shape b : zlen b + 8 < 2 ^ 32 -> sig_shape (xap_hdr b) b (xap_trl b).
+Proof.
+  intros H. pose proof (zlen_nonneg b) as Hb. constructor.
+  - now apply zlen_xap_hdr.
+  - now apply zlen_xap_trl.
+  - unfold xap_trl. rewrite xap_tr_vals_eq by lia. rewrite dec_enc_struct0 by (apply xap_tr_range; unfold xap_trailerMagic; lia). reflexivity.
+  - unfold xap_trl. rewrite xap_tr_vals_eq by lia. rewrite dec_enc_struct0 by (apply xap_tr_range; unfold xap_trailerMagic; lia). reflexivity.
+  - unfold xap_hdr. rewrite xap_hdr_vals_eq by lia. rewrite dec_enc_struct0 by (apply xap_hdr_range; lia). reflexivity.
+Qed.
+Lemma xap_signed_assoc z b : xap_signed z b = z ++ xap_hdr b ++ b ++ xap_trl b.
+Proof. unfold xap_signed. now rewrite xap_sigblock_eq. Qed.
+
+(* ================================================================== the last ten bytes, as the specification reads them *)
+Lemma tail_reads f : 10 <= zlen f -> let tl := zslice (zlen f - 10) (zlen f) f in
+  zlen tl = 10 /\ zslice (zlen f - 10) (zlen f - 6) f = ztake 4 tl /\ zdrop (zlen f - 4) f = zdrop 6 tl /\
+  t_magic f = le_dec (ztake 4 tl) /\ t_size f = le_dec (zdrop 6 tl).
+Proof.
+  intros Hn tl. assert (Ltl : zlen tl = 10).
+  { unfold tl. rewrite zslice_to_end by lia. rewrite zlen_zdrop by lia. lia. }
+  split; [exact Ltl|]. split; [|split].
+  - unfold tl, zslice. rewrite C12.Proofs.ztake_ztake by lia. f_equal. lia.
+  - unfold tl. rewrite zslice_to_end by lia. rewrite zdrop_zdrop by lia. f_equal. lia.
+  - destruct (trl_fields tl Ltl) as [A B]. unfold t_magic, t_size, f_trl. fold tl. now rewrite A, B.
+Qed.
+
+(* ================================================================== a file without trailer magic *)
+Section Unsigned.
+  Variable f : bytes.
+  Hypothesis Hb : all_bytes f = true.
+  Hypothesis U : zlen f < 10 \/ t_magic f <> XM.
+  Lemma uns_trailer_size : xap_trailer_size f = 0.
+  Proof.
+    rewrite trailer_size_eq. destruct (zlen f <? 10) eqn:E; [reflexivity|].
+    destruct U as [U'|U']; [lia|]. replace (t_magic f =? XM) with false by lia. reflexivity.
+  Qed.
+  Lemma uns_spec_split : xap_spec_split f = Ok (f, None).
+  Proof.
+    unfold xap_spec_split. destruct (zlen f <? 10) eqn:E; [reflexivity|]. destruct U as [U'|U']; [lia|].
+    destruct (tail_reads f ltac:(lia)) as (Ltl & Em & _ & Fm & _). rewrite Em.
+    destruct (bytes_eqb _ _) eqn:Eb; [|reflexivity]. exfalso. apply U'. rewrite Fm.
+    apply magic_bytes; [now apply all_bytes_ztake, all_bytes_zslice|apply zlen_ztake; lia|exact Eb].
+  Qed.
+  Lemma uns_remove d : 0 <= d <= zlen f -> xap_remove_signature (zdrop d f) = Ok (zdrop d f).
+  Proof.
+    intros Rd. rewrite remove_sig_eq. f_equal. rewrite zlen_zdrop by lia.
+    destruct (zlen f - d <? 10) eqn:E; [reflexivity|]. destruct U as [U'|U']; [lia|].
+    replace (t_magic (zdrop d f)) with (t_magic f).
+    - replace (t_magic f =? XM) with false by lia. reflexivity.
+    - unfold t_magic, f_trl. rewrite zlen_zdrop by lia. rewrite zslice_zdrop by lia. do 3 f_equal; lia.
+  Qed.
+  Lemma uns_digest d : zip_find_dir f (zlen f) = Ok d -> 0 <= d <= zlen f -> xap_digest f = Ok (mkXapd f (zlen f) 0).
+  Proof.
+    intros Hd Rd. rewrite xap_digest_eq by exact Hb. rewrite uns_trailer_size, Z.sub_0_r, Hd. cbn [bind].
+    replace (d <? 0) with false by lia. replace (zlen f - d <? 0) with false by lia.
+    rewrite uns_remove by exact Rd. cbn [bind]. rewrite ztake_zdrop, zlen_zdrop by lia. do 2 f_equal; lia.
+  Qed.
+End Unsigned.
+
+(* ================================================================== more slices *)
+Lemma zlen_zslice {A} a b (l : list A) : 0 <= a <= b -> b <= zlen l -> zlen (zslice a b l) = b - a.
+Proof. intros H1 H2. unfold zslice. rewrite zlen_ztake; [lia|]. rewrite zlen_zdrop by lia. lia. Qed.
+Lemma zslice_zslice {A} a b s e (l : list A) : 0 <= a -> 0 <= s -> b <= e - s -> zslice a b (zslice s e l) = zslice (s + a) (s + b) l.
+Proof.
+  intros Ha Hs Hb. unfold zslice. rewrite C12.Proofs.zdrop_ztake by lia. rewrite C12.Proofs.ztake_ztake by lia.
+  rewrite zdrop_zdrop by lia. f_equal; [lia|f_equal; lia].
+Qed.
+
+(* ================================================================== what an accepted end record looks like *)
+Lemma nonneg_zipend : nonneg_ws zipend_widths. Proof. repeat constructor; lia. Qed.
+Lemma find_dir_eocd f zs d : 0 <= zs -> zip_find_dir f zs = Ok d ->
+  22 <= zs /\ le_dec (zslice (zs - 22) (zs - 18) f) = 101010256.
+Proof.
+  intros H0 H. unfold zip_find_dir in H. destruct (zip_window f zs) as [w| |] eqn:Ew; cbn [bind] in H; try discriminate.
+  destruct (zip_no_end_record _) eqn:En; [discriminate|]. clear H.
+  unfold zip_no_end_record in En. apply negb_false_iff, Z.eqb_eq in En.
+  rewrite (fld_dec zipend_widths zipend_ix_Signature _ nonneg_zipend) in En by (vm_compute; lia).
+  cbn [firstn zipend_ix_Signature wsum fold_right nth zipend_widths] in En. unfold ziploc_size in En.
+  rewrite zslice_zdrop in En by lia. change (20 + 0) with 20 in En. change (20 + (0 + 4)) with 24 in En.
+  unfold zip_window, zip_find_pos, zip_find_short, zip_find_short_skip, zip_find_short_pos, zip_directory64LocLen, zip_directoryEndLen in Ew.
+  destruct ((zs - 22 - 20 <? 0) && (zs >=? 22)) eqn:Es.
+  - destruct (zlen f - 0 <? _) eqn:El; [discriminate|]. apply Ok_inj in Ew; subst w. split; [lia|].
+    rewrite <- En. f_equal. rewrite zslice_app_r by (rewrite zlen_repeat; lia). rewrite zlen_repeat.
+    replace (0 + (20 + 22 - - (zs - 22 - 20))) with zs by lia. rewrite zslice_0, zslice_ztake_inner by lia. f_equal; lia.
+  - destruct (zs - 22 - 20 <? 0) eqn:Ep; [discriminate|]. destruct (zlen f - _ <? _) eqn:El; [discriminate|].
+    apply Ok_inj in Ew; subst w. split; [lia|]. rewrite <- En. f_equal. rewrite zslice_zslice by lia. f_equal; lia.
+Qed.
+
+Lemma uns_extract f d : (zlen f < 10 \/ t_magic f <> XM) -> zip_find_dir f (zlen f) = Ok d -> xap_extract f = Ok None.
+Proof.
+  intros U Hd. destruct (find_dir_eocd f (zlen f) d (zlen_nonneg f) Hd) as [Hn He].
+  destruct U as [U|U]; [lia|]. unfold xap_extract, xap_vparse, xap_v_trailer_off, xap_v_trailer_len.
+  replace (zlen f - 10 <? 0) with false by lia. replace (zlen f - 10 + 10) with (zlen f) by lia.
+  fold (f_trl f). fold (t_magic f). unfold xap_v_no_trailer. fold XM. replace (t_magic f =? XM) with false by lia. cbn [negb].
+  unfold xap_v_zipmagic_off, xap_v_zipmagic_len, xap_v_is_zip. replace (zlen f - 22 <? 0) with false by lia.
+  replace (zlen f - 22 + 4) with (zlen f - 18) by lia. rewrite He. reflexivity.
+Qed.
+
+(* ================================================================== the domain, structurally *)
+Definition is_block (old : bytes) (o : option bytes) : Prop :=
+  (old = [] /\ o = None) \/ (exists h b0 tl, old = h ++ b0 ++ tl /\ sig_shape h b0 tl /\ o = Some b0).
+Record xap_parts (f z old : bytes) (o : option bytes) : Prop := mkParts {
+  pt_split : f = z ++ old;
+  pt_bytes : all_bytes f = true;
+  pt_digest : xap_digest f = Ok (mkXapd z (zlen z) (zlen old));
+  pt_spec : xap_spec_split f = Ok (z, o);
+  pt_extract : xap_extract f = Ok o;
+  pt_trailer : xap_trailer_size f = zlen old;
+  pt_dir : exists d, zip_find_dir f (zlen z) = Ok d /\ 0 <= d <= zlen z;
+  pt_zip64 : zip64_inside_at f (zlen z) = true;
+  pt_block : is_block old o }.
+
+Lemma parts_unsigned f d : all_bytes f = true -> (zlen f < 10 \/ t_magic f <> XM) -> zip_find_dir f (zlen f) = Ok d -> 0 <= d <= zlen f ->
+  zip64_inside_at f (zlen f) = true -> xap_parts f f [] None.
+Proof.
+  intros Hb U Hd Rd Hz. constructor; try assumption.
+  - now rewrite app_nil_r.
+  - rewrite zlen_nil. exact (uns_digest f Hb U d Hd Rd).
+  - exact (uns_spec_split f Hb U).
+  - exact (uns_extract f d U Hd).
+  - rewrite zlen_nil. exact (uns_trailer_size f U).
+  - exists d. auto.
+  - left. auto.
+Qed.
+Lemma parts_signed z h b0 tl d : let g := z ++ h ++ b0 ++ tl in
+  all_bytes g = true -> sig_shape h b0 tl -> zip_find_dir g (zlen z) = Ok d -> 0 <= d <= zlen z ->
+  zip64_inside_at g (zlen z) = true -> xap_parts g z (h ++ b0 ++ tl) (Some b0).
+Proof.
+  intros g Hb S Hd Rd Hz.
+  assert (Lo : zlen (h ++ b0 ++ tl) = zlen b0 + 18) by (rewrite !zlen_app, (sh_h _ _ _ S), (sh_tl _ _ _ S); lia).
+  constructor; try assumption.
+  - reflexivity.
+  - rewrite Lo. exact (shape_digest z h b0 tl S d Hb Hd Rd).
+  - apply shape_spec_split; [exact S|]. unfold g in Hb. rewrite !all_bytes_app in Hb.
+    apply andb_true_iff in Hb as [_ Hb]. apply andb_true_iff in Hb as [_ Hb]. apply andb_true_iff in Hb as [_ Hb]. exact Hb.
+  - exact (shape_extract z h b0 tl S).
+  - rewrite Lo. exact (shape_trailer_size z h b0 tl S).
+  - exists d. auto.
+  - right. exists h, b0, tl. auto.
+Qed.
+
+Lemma xap_wf_parts f : xap_wf f = true -> exists z old o, xap_parts f z old o.
+Proof.
+  unfold xap_wf. intros H. repeat (apply andb_true_iff in H as [H ?]).
+  rename H into Hb, H0 into Hs, H1 into Hi, H2 into Hz, H3 into Hd.
+  unfold xap_zip64_inside, xap_dir_inside, xap_find_dir, zip_tar_find_size in *. rewrite tf_trailer_eq in *.
+  rewrite xap_digest_eq in Hd by exact Hb.
+  destruct (zip_find_dir f (zlen f - xap_trailer_size f)) as [d| |] eqn:Ed; try discriminate. cbn [bind] in Hd.
+  destruct (d <? 0) eqn:Ed0; [discriminate|]. clear Hd. pose proof (zlen_nonneg f) as Hn.
+  destruct (Z_lt_ge_dec (zlen f) 10) as [Hlt|Hge]; [|destruct (Z.eq_dec (t_magic f) XM) as [Em|Em]].
+  - assert (U : zlen f < 10 \/ t_magic f <> XM) by (left; exact Hlt).
+    rewrite (uns_trailer_size f U), Z.sub_0_r in *. exists f, [], None. apply (parts_unsigned f d); auto; lia.
+  - (* trailer magic present *)
+    destruct (tail_reads f ltac:(lia)) as (Ltl & Emg & Esz & Fm & Fs). set (tl := zslice (zlen f - 10) (zlen f) f) in *.
+    assert (Htl : all_bytes tl = true) by (unfold tl; now apply all_bytes_zslice).
+    unfold xap_spec_split in Hs. replace (zlen f <? 10) with false in Hs by lia. rewrite Emg in Hs.
+    replace (bytes_eqb (ztake 4 tl) [88; 97; 112; 83]) with true in Hs
+      by (symmetry; apply magic_bytes; [now apply all_bytes_ztake|apply zlen_ztake; lia|congruence]).
+    cbn [negb orb] in Hs. rewrite Esz, <- Fs in Hs. pose proof (t_size_nonneg f Hb) as Hts.
+    destruct ((t_size f <? 8) || (zlen f - 10 - t_size f <? 0)) eqn:E1; [discriminate|].
+    set (start := zlen f - 10 - t_size f) in *.
+    destruct (negb (le_dec (zslice (start + 4) (start + 8) f) =? t_size f - 8)) eqn:E2; [discriminate|]. clear Hs.
+    apply negb_false_iff, Z.eqb_eq in E2.
+    assert (Et : xap_trailer_size f = t_size f + 10).
+    { rewrite trailer_size_eq. replace (zlen f <? 10) with false by lia. rewrite Em, Z.eqb_refl. cbn [negb orb].
+      replace (t_size f + 10 >? zlen f) with false by lia. reflexivity. }
+    rewrite Et in *. replace (zlen f - (t_size f + 10)) with start in * by (unfold start; lia).
+    set (z := ztake start f). set (h := zslice start (start + 8) f). set (b0 := zslice (start + 8) (zlen f - 10) f).
+    assert (Lz : zlen z = start) by (unfold z; apply zlen_ztake; lia).
+    assert (Ef : f = z ++ h ++ b0 ++ tl).
+    { unfold z, h, b0, tl. rewrite <- (zslice_split (start + 8) (zlen f - 10) (zlen f)) by lia.
+      rewrite <- (zslice_split start (start + 8) (zlen f)) by lia. rewrite zslice_to_end by lia. symmetry. apply ztake_zdrop. }
+    assert (S : sig_shape h b0 tl).
+    { constructor.
+      - unfold h. rewrite zlen_zslice by lia. lia.
+      - exact Ltl.
+      - exact Em.
+      - unfold b0. rewrite zlen_zslice by lia. change (fld xaptr_ix_TrailerSize (dec_struct xaptr_widths tl)) with (t_size f). unfold start. lia.
+      - rewrite hdr_field by (unfold h; rewrite zlen_zslice by lia; lia). unfold h. rewrite zslice_zslice by lia.
+        rewrite E2. unfold b0. rewrite zlen_zslice by lia. unfold start. lia. }
+    exists z, (h ++ b0 ++ tl), (Some b0). rewrite Ef at 1. apply (parts_signed z h b0 tl d); try rewrite <- Ef; try rewrite Lz; auto; lia.
+  - assert (U : zlen f < 10 \/ t_magic f <> XM) by (right; exact Em).
+    rewrite (uns_trailer_size f U), Z.sub_0_r in *. exists f, [], None. apply (parts_unsigned f d); auto; lia.
+Qed.
+
+Lemma xap_parts_wf f z old o : xap_parts f z old o -> xap_wf f = true.
+Proof.
+  intros P. destruct P as [Ef Hb Hd Hs He Ht [d [Hf Rd]] Hz _].
+  assert (Ezs : zlen f - xap_trailer_size f = zlen z) by (rewrite Ht, Ef, zlen_app; lia).
+  unfold xap_wf. rewrite Hb, Hd, Hs. cbn [is_ok andb].
+  unfold xap_zip64_inside, xap_dir_inside, xap_find_dir, zip_tar_find_size. rewrite tf_trailer_eq, Ezs, Hz, Hf. cbn [andb]. lia.
+Qed.
+
+(* ================================================================== signing: the patch set applied *)
+Lemma xap_embed_eq f b z old o : xap_parts f z old o -> xap_embed f b = Ok (z ++ xap_sigblock b).
+Proof.
+  intros P. destruct P as [Ef Hb Hd _ _ _ _ _ _]. unfold xap_embed. rewrite Hd. cbn [bind].
+  unfold xap_patchset. cbn [x_start x_len]. unfold xap_patch_off, xap_patch_old.
+  change (C12.Model.add [] (zlen z) (zlen old) (xap_sigblock b))
+    with (C12.Model.add_all [C12.Model.mkCall (zlen z) (zlen old) (xap_sigblock b)]).
+  pose proof (zlen_nonneg z) as Hz. pose proof (zlen_nonneg old) as Ho.
+  assert (Lf : zlen f = zlen z + zlen old) by (rewrite Ef; apply zlen_app).
+  destruct (C12.Proofs.add_fileorder_sound [C12.Model.mkCall (zlen z) (zlen old) (xap_sigblock b)] f) as [A S].
+  { cbn [map C12.Model.call_patch C12.Model.asc_disjoint C12.Model.c_off C12.Model.c_old C12.Model.c_blob C12.Model.p_off C12.Model.p_old].
+    rewrite Lf. lia. }
+  rewrite (C12.Proofs.isort_id _ (C12.Proofs.asc_nondecreasing _ _ _ A)).
+  rewrite (C12.Proofs.rewrite_sorted _ _ A), S. f_equal.
+  cbn [map C12.Model.call_patch C12.Model.splice fold_right C12.Model.c_off C12.Model.c_old C12.Model.c_blob C12.Model.p_off C12.Model.p_old C12.Model.p_blob].
+  unfold C12.Model.replace1. rewrite Ef at 1. rewrite ztake_app_exact by reflexivity. f_equal.
+  rewrite zdrop_all by lia. apply app_nil_r.
+Qed.
+
+Lemma blob_wf_inv b : xap_blob_wf b = true -> all_bytes b = true /\ zlen b + 8 < 2 ^ 32.
+Proof. unfold xap_blob_wf. intros H. apply andb_true_iff in H as [H1 H2]. split; [exact H1|lia]. Qed.
+
+Lemma parts_resign f z old o b : xap_parts f z old o -> xap_blob_wf b = true ->
+  xap_parts (z ++ xap_sigblock b) z (xap_sigblock b) (Some b).
+Proof.
+  intros P Hbw. destruct (blob_wf_inv b Hbw) as [Hbb Hbl]. destruct P as [Ef Hb _ _ _ _ [d [Hf Rd]] Hz _].
+  pose proof (zlen_nonneg z) as Lz0. pose proof (zlen_nonneg old) as Lo0.
+  assert (Lf : zlen f = zlen z + zlen old) by (rewrite Ef; apply zlen_app).
+  assert (Hbz : all_bytes z = true) by (rewrite Ef, all_bytes_app in Hb; now apply andb_true_iff in Hb).
+  rewrite xap_sigblock_eq. set (g := z ++ xap_hdr b ++ b ++ xap_trl b).
+  assert (Et : ztake (zlen z) f = ztake (zlen z) g).
+  { rewrite Ef. unfold g. now rewrite !ztake_app_exact. }
+  assert (Lg : zlen z <= zlen g) by (unfold g; rewrite zlen_app; pose proof (zlen_nonneg (xap_hdr b ++ b ++ xap_trl b)); lia).
+  apply (parts_signed z (xap_hdr b) b (xap_trl b) d).
+  - fold g. unfold g. rewrite <- xap_sigblock_eq, all_bytes_app, Hbz. now apply xap_sigblock_bytes.
+  - now apply sigblock_shape.
+  - fold g. rewrite <- (zip_find_dir_agree f g (zlen z)); auto; lia.
+  - exact Rd.
+  - fold g. rewrite <- (zip64_inside_agree f g (zlen z)); auto; lia.
+Qed.
+
+(* ================================================================== the format and its laws *)
+Definition xap_format : format bytes := mkFormat bytes xap_hashin xap_embed_wf xap_extract xap_payload.
+
+Lemma xap_embed_wf_inv f b g : xap_embed_wf f b = Ok g -> xap_wf f = true /\ xap_blob_wf b = true /\ xap_embed f b = Ok g.
+Proof.
+  unfold xap_embed_wf. destruct (xap_wf f); [|discriminate]. destruct (xap_blob_wf b); [|discriminate]. cbn [andb]. auto.
+Qed.
+(* everything about one signing step *)
+Lemma xap_step f b g : xap_embed_wf f b = Ok g -> exists z old o,
+  xap_parts f z old o /\ g = z ++ xap_sigblock b /\ xap_parts g z (xap_sigblock b) (Some b).
+Proof.
+  intros H. destruct (xap_embed_wf_inv _ _ _ H) as (Hw & Hb & He).
+  destruct (xap_wf_parts f Hw) as (z & old & o & P). exists z, old, o.
+  rewrite (xap_embed_eq f b z old o P) in He. apply Ok_inj in He. subst g. split; [exact P|]. split; [reflexivity|]. exact (parts_resign f z old o b P Hb).
+Qed.
+Lemma parts_hashin f z old o : xap_parts f z old o -> xap_hashin f = Ok z.
+Proof. intros P. unfold xap_hashin. now rewrite (pt_digest _ _ _ _ P). Qed.
+Lemma parts_payload f z old o : xap_parts f z old o -> xap_payload f = Ok z.
+Proof. intros P. unfold xap_payload. now rewrite (pt_spec _ _ _ _ P). Qed.
+
+Theorem xap_law_extract : law_extract bytes xap_format.
+Proof.
+  unfold law_extract, xap_format. cbn [f_embed f_extract]. intros f b g H.
+  destruct (xap_step f b g H) as (z & old & o & _ & _ & P). exact (pt_extract _ _ _ _ P).
+Qed.
+Theorem xap_law_hashin : law_hashin bytes xap_format.
+Proof.
+  unfold law_hashin, xap_format. cbn [f_embed f_hashin]. intros f b g H.
+  destruct (xap_step f b g H) as (z & old & o & P & _ & P'). now rewrite (parts_hashin _ _ _ _ P), (parts_hashin _ _ _ _ P').
+Qed.
+Theorem xap_law_payload : law_payload bytes xap_format.
+Proof.
+  unfold law_payload, xap_format. cbn [f_embed f_payload]. intros f b g H.
+  destruct (xap_step f b g H) as (z & old & o & P & _ & P'). now rewrite (parts_payload _ _ _ _ P), (parts_payload _ _ _ _ P').
+Qed.
+
+(* C01: inside the domain signing always succeeds — for unsigned zips and for files that already carry a signature *)
+Theorem xap_embed_defined f b : xap_wf f = true -> xap_blob_wf b = true -> exists g, xap_embed_wf f b = Ok g /\ xap_embed f b = Ok g.
+Proof.
+  intros Hw Hb. destruct (xap_wf_parts f Hw) as (z & old & o & P). exists (z ++ xap_sigblock b).
+  unfold xap_embed_wf. rewrite Hw, Hb. cbn [andb]. split; exact (xap_embed_eq f b z old o P).
+Qed.
+(* C08: the signed file is again in the domain *)
+Theorem xap_wf_preserved f b g : xap_embed_wf f b = Ok g -> xap_wf g = true.
+Proof. intros H. destruct (xap_step f b g H) as (z & old & o & _ & _ & P). exact (xap_parts_wf _ _ _ _ P). Qed.
+
+(* C08: NotSignedError coincides with the specification's "no trailer" *)
+Theorem xap_is_signed_spec f : xap_wf f = true -> (xap_extract f = Ok None <-> xap_spec_signed f = false).
+Proof.
+  intros Hw. destruct (xap_wf_parts f Hw) as (z & old & o & P). unfold xap_spec_signed.
+  rewrite (pt_extract _ _ _ _ P), (pt_spec _ _ _ _ P). destruct o; split; intros H; congruence.
+Qed.
+(* C05: the signer's digest input is the specification's: the zip part of the file *)
+Theorem xap_hashin_eq_spec f : xap_wf f = true -> xap_hashin f = xap_spec_hashin f.
+Proof.
+  intros Hw. destruct (xap_wf_parts f Hw) as (z & old & o & P). rewrite (parts_hashin _ _ _ _ P).
+  unfold xap_spec_hashin. now rewrite (pt_spec _ _ _ _ P).
+Qed.
+(* C01 / C05: on a signed file the verifier digests the same bytes as the signer would *)
+Theorem xap_verifier_digest_eq f : xap_wf f = true -> xap_spec_signed f = true -> xap_vhashin f = xap_hashin f.
+Proof.
+  intros Hw Hs. destruct (xap_wf_parts f Hw) as (z & old & o & P). rewrite (parts_hashin _ _ _ _ P).
+  unfold xap_spec_signed in Hs. rewrite (pt_spec _ _ _ _ P) in Hs.
+  destruct (pt_block _ _ _ _ P) as [[_ ->]|(h & b0 & tl & Eo & S & ->)]; [discriminate|].
+  rewrite (pt_split _ _ _ _ P), Eo. exact (shape_vhashin z h b0 tl S).
+Qed.
+(* C03: input and output share the payload as a prefix; behind it the input has nothing or one signature block, the output
+   exactly the block for the new blob *)
+Theorem xap_only_these_ranges_differ f b g : xap_embed_wf f b = Ok g -> exists z old,
+  xap_payload f = Ok z /\ f = z ++ old /\ g = z ++ xap_sigblock b /\
+  (old = [] \/ exists h b0 tl, old = h ++ b0 ++ tl /\ zlen h = 8 /\ zlen tl = 10 /\ xap_extract f = Ok (Some b0)).
+Proof.
+  intros H. destruct (xap_step f b g H) as (z & old & o & P & Eg & _). exists z, old.
+  split; [exact (parts_payload _ _ _ _ P)|]. split; [exact (pt_split _ _ _ _ P)|]. split; [exact Eg|].
+  destruct (pt_block _ _ _ _ P) as [[-> _]|(h & b0 & tl & Eo & S & Eq)]; [left; reflexivity|right].
+  exists h, b0, tl. repeat split; [exact Eo|exact (sh_h _ _ _ S)|exact (sh_tl _ _ _ S)|]. rewrite <- Eq. exact (pt_extract _ _ _ _ P).
+Qed.
+(* C08 (fix 956170e): a signed XAP can be signed again; the old block is replaced, not kept *)
+Theorem xap_signed_resignable f b g b' : xap_embed_wf f b = Ok g -> xap_blob_wf b' = true ->
+  exists g', xap_embed_wf g b' = Ok g' /\ xap_extract g' = Ok (Some b') /\ xap_payload g' = xap_payload f /\
+             xap_hashin g' = xap_hashin f /\ zlen g' - zlen b' = zlen g - zlen b.
+Proof.
+  intros H Hb'. destruct (xap_step f b g H) as (z & old & o & P & Eg & Pg).
+  destruct (xap_embed_wf_inv _ _ _ H) as (_ & Hb & _).
+  destruct (xap_embed_defined g b' (xap_parts_wf _ _ _ _ Pg) Hb') as (g' & H' & _).
+  destruct (xap_step g b' g' H') as (z' & old' & o' & Pg2 & Eg' & Pg').
+  assert (z' = z) by (pose proof (parts_hashin _ _ _ _ Pg); pose proof (parts_hashin _ _ _ _ Pg2); congruence). subst z'.
+  exists g'. split; [exact H'|]. split; [exact (pt_extract _ _ _ _ Pg')|].
+  rewrite (parts_payload _ _ _ _ Pg'), (parts_payload _ _ _ _ P), (parts_hashin _ _ _ _ Pg'), (parts_hashin _ _ _ _ P).
+  repeat split. rewrite Eg, Eg'. unfold xap_signed. fold (xap_signed z b). fold (xap_signed z b').
+  rewrite !zlen_xap_signed by (destruct (blob_wf_inv _ Hb); destruct (blob_wf_inv _ Hb'); lia). lia.
+Qed.
+
+(* ================================================================== C02: what the digest and the blob pin down *)
+Lemma le4_canon x v : all_bytes x = true -> zlen x = 4 -> le_dec x = v -> x = le_enc 4 v.
+Proof. intros Hb Hl <-. rewrite <- (le_enc_dec x Hb) at 1. f_equal. unfold zlen in Hl. lia. Qed.
+Lemma shape_protected_canon z h b0 tl : sig_shape h b0 tl -> all_bytes h = true -> all_bytes tl = true ->
+  xap_protected (z ++ h ++ b0 ++ tl) = z ++ le_enc 4 (zlen b0) ++ b0 ++ le_enc 4 XM ++ le_enc 4 (zlen b0 + 8).
+Proof.
+  intros S Hh Ht. rewrite (shape_protected z h b0 tl S).
+  pose proof (sh_h _ _ _ S) as Lh. pose proof (sh_tl _ _ _ S) as Lt. destruct (trl_fields tl Lt) as [Fm Fs].
+  rewrite (sh_magic _ _ _ S) in Fm. rewrite (sh_tsz _ _ _ S) in Fs.
+  rewrite (le4_canon (zdrop 4 h) (zlen b0)); [|now apply all_bytes_zdrop|rewrite zlen_zdrop by lia; lia|].
+  2:{ rewrite <- (sh_ssz _ _ _ S), hdr_field by exact Lh. f_equal. rewrite <- Lh. symmetry. apply zslice_to_end. lia. }
+  rewrite (le4_canon (ztake 4 tl) XM); [|now apply all_bytes_ztake|apply zlen_ztake; lia|now symmetry].
+  rewrite (le4_canon (zdrop 6 tl) (zlen b0 + 8)); [reflexivity|now apply all_bytes_zdrop|rewrite zlen_zdrop by lia; lia|now symmetry].
+Qed.
+Lemma parts_signed_block f z old o : xap_parts f z old o -> xap_spec_signed f = true ->
+  exists h b0 tl, f = z ++ h ++ b0 ++ tl /\ sig_shape h b0 tl /\ o = Some b0 /\ all_bytes h = true /\ all_bytes tl = true.
+Proof.
+  intros P Hs. unfold xap_spec_signed in Hs. rewrite (pt_spec _ _ _ _ P) in Hs.
+  destruct (pt_block _ _ _ _ P) as [[_ ->]|(h & b0 & tl & Eo & S & ->)]; [discriminate|].
+  exists h, b0, tl. pose proof (pt_bytes _ _ _ _ P) as Hb. rewrite (pt_split _ _ _ _ P), Eo in Hb |- *.
+  rewrite !all_bytes_app in Hb. repeat (apply andb_true_iff in Hb as [? Hb]). auto.
+Qed.
+(* two signed files of the domain with the same digest input and the same blob agree on every byte the format protects:
+   everything except the two unknown words of the block header and the unknown word of the trailer *)
+Theorem xap_protect g1 g2 : xap_wf g1 = true -> xap_wf g2 = true -> xap_spec_signed g1 = true -> xap_spec_signed g2 = true ->
+  xap_hashin g1 = xap_hashin g2 -> xap_extract g1 = xap_extract g2 -> xap_protected g1 = xap_protected g2.
+Proof.
+  intros W1 W2 S1 S2 Hh He.
+  destruct (xap_wf_parts g1 W1) as (z1 & old1 & o1 & P1). destruct (xap_wf_parts g2 W2) as (z2 & old2 & o2 & P2).
+  rewrite (parts_hashin _ _ _ _ P1), (parts_hashin _ _ _ _ P2) in Hh. apply Ok_inj in Hh. subst z2.
+  rewrite (pt_extract _ _ _ _ P1), (pt_extract _ _ _ _ P2) in He. apply Ok_inj in He. subst o2.
+  destruct (parts_signed_block _ _ _ _ P1 S1) as (h1 & b1 & t1 & E1 & Sh1 & Eo1 & Hh1 & Ht1).
+  destruct (parts_signed_block _ _ _ _ P2 S2) as (h2 & b2 & t2 & E2 & Sh2 & Eo2 & Hh2 & Ht2).
+  assert (b2 = b1) by congruence. subst b2.
+  rewrite E1, E2. now rewrite !shape_protected_canon.
+Qed.
+(* ... and nothing more: the unknown words are covered by neither digest nor blob (witness, replayed on the real verifier) *)
+Definition w_zip : bytes := [80; 75; 5; 6] ++ repeat 0 18.
+Definition w_x1 : bytes := w_zip ++ xap_sigblock [7].
+Definition w_x2 : bytes := w_zip ++ [2; 0; 3; 0; 1; 0; 0; 0] ++ [7] ++ [88; 97; 112; 83; 9; 0; 9; 0; 0; 0].
+Theorem xap_exempt_fields_unprotected :
+  xap_wf w_x1 = true /\ xap_wf w_x2 = true /\ w_x1 <> w_x2 /\ xap_hashin w_x1 = xap_hashin w_x2 /\
+  xap_extract w_x1 = xap_extract w_x2 /\ xap_extract w_x1 = Ok (Some [7]) /\ xap_vhashin w_x2 = Ok w_zip /\
+  xap_protected w_x1 = xap_protected w_x2.
+Proof. vm_compute. repeat split; try reflexivity. discriminate. Qed.
+
+(* outside the domain: an end record whose directory offset points behind the zip part, into an existing signature block.
+   relic keeps the old block inside the signed content and appends a second one; the result cannot be signed again and the
+   independent reader's payload has changed *)
+Definition w_zip_out : bytes := [80; 75; 5; 6] ++ repeat 0 12 ++ [23; 0; 0; 0; 0; 0].
+Definition w_out : bytes := w_zip_out ++ xap_sigblock [].
+Theorem xap_law_hashin_refuted : exists g,
+  xap_wf w_out = false /\ xap_embed w_out [9] = Ok g /\ xap_extract g = Ok (Some [9]) /\
+  xap_hashin w_out = Ok w_out /\ xap_hashin g = Err E_NODIR /\ xap_payload w_out = Ok w_zip_out /\ xap_payload g = Ok w_out.
+Proof. exists (w_out ++ xap_sigblock [9]). vm_compute. repeat split; reflexivity. Qed.
+
+(* ================================================================== C01: refusals *)
+Theorem xap_refuses_clean :
+  (forall f b, is_ok (xap_hashin f) = false -> is_ok (xap_embed f b) = false) /\
+  (forall f b p, all_bytes f = true -> xap_hashin f <> Panic p /\ xap_embed f b <> Panic p) /\
+  (forall f pre, all_bytes f = true -> xap_hashin f = Ok pre ->
+     let zs := zlen f - xap_trailer_size f in
+     22 <= zs /\ u32at (zs - 22) f = 101010256 /\ exists d, zip_find_dir f zs = Ok d /\ 0 <= d <= zlen f).
+Proof.
+  split; [|split].
+  - intros f b. unfold xap_hashin, xap_embed. destruct (xap_digest f); cbn [bind is_ok]; congruence.
+  - intros f b p Hb. pose proof (xap_digest_no_panic f) as N. unfold xap_hashin, xap_embed.
+    destruct (xap_digest f) as [dg| |q]; cbn [bind]; [|split; discriminate|exfalso; exact (N q Hb eq_refl)].
+    split; [discriminate|]. apply rewrite_from_no_panic.
+  - intros f pre Hb H zs. unfold xap_hashin in H. rewrite xap_digest_eq in H by exact Hb. fold zs in H.
+    destruct (zip_find_dir f zs) as [d| |] eqn:Ed; cbn [bind] in H; try discriminate.
+    destruct (d <? 0) eqn:E0; [discriminate|]. destruct (zlen f - d <? 0) eqn:E1; [discriminate|].
+    pose proof (trailer_size_range f Hb) as R.
+    destruct (find_dir_eocd f zs d ltac:(unfold zs; lia) Ed) as [A B].
+    split; [exact A|]. split; [|exists d; split; [reflexivity|lia]].
+    unfold u32at. replace (zs - 22 + 4) with (zs - 18) by lia. exact B.
+Qed.
+
+(* ================================================================== C01 / C08: the pipeline theorems, symbolic cryptography *)
+Section XapCrypto.
+  Variables key pubk sigv : Type.
+  Variable H : Z -> bytes -> bytes.
+  Variable pub : key -> pubk.
+  Variable sign : key -> bytes -> sigv.
+  Variable vrfy : pubk -> bytes -> sigv -> bool.
+  Hypothesis sign_correct : forall k m, vrfy (pub k) m (sign k m) = true.
+  Variable tbs : Z -> bytes -> bytes.
+  Variable ser : sigblob pubk sigv -> bytes.
+  Variable deser : bytes -> option (sigblob pubk sigv).
+  Hypothesis deser_ser : forall b, deser (ser b) = Some b.
+
+  Theorem xap_sign_then_verify : forall k a f g,
+    sign_file key pubk sigv H pub sign tbs ser bytes xap_format k a f = Ok g ->
+    verify_file pubk sigv H vrfy tbs deser bytes xap_format g = Accept pubk (pub k) a.
+  Proof.
+    apply (sign_then_verify key pubk sigv H pub sign vrfy sign_correct tbs ser deser deser_ser bytes xap_format).
+    - exact xap_law_extract.
+    - exact xap_law_hashin.
+  Qed.
+  Theorem xap_resign_history : forall hist f g k a,
+    resign key pubk sigv H pub sign tbs ser bytes xap_format (hist ++ [(k, a)]) f = Ok g ->
+    verify_file pubk sigv H vrfy tbs deser bytes xap_format g = Accept pubk (pub k) a
+    /\ is_signed bytes xap_format g = true /\ xap_payload g = xap_payload f /\ xap_hashin g = xap_hashin f.
+  Proof.
+    apply (resign_history key pubk sigv H pub sign vrfy sign_correct tbs ser deser deser_ser bytes xap_format).
+    - exact xap_law_extract.
+    - exact xap_law_hashin.
+    - exact xap_law_payload.
+  Qed.
+  (* the verifier of the pipeline theorems uses the signer's digest function; on the signed file it is the verifier's own *)
+  Theorem xap_verify_uses_verifier_digest : forall f b g, xap_embed_wf f b = Ok g -> xap_vhashin g = xap_hashin g.
+  Proof.
+    intros f b g Hg. destruct (xap_step f b g Hg) as (z & old & o & _ & _ & P).
+    apply xap_verifier_digest_eq; [exact (xap_parts_wf _ _ _ _ P)|]. unfold xap_spec_signed. now rewrite (pt_spec _ _ _ _ P).
+  Qed.
+End XapCrypto.
+
+(* ================================================================== statements in the form FmtCAB/Properties.v quotes them *)
+Lemma xap_embed_wf_eq f b : xap_wf f = true -> xap_blob_wf b = true -> xap_embed_wf f b = xap_embed f b.
+Proof. intros Hw Hb. unfold xap_embed_wf. now rewrite Hw, Hb. Qed.
+Lemma xap_law_extract_P f b g : xap_wf f = true -> xap_blob_wf b = true -> xap_embed f b = Ok g -> xap_extract g = Ok (Some b).
+Proof. intros Hw Hb He. apply (xap_law_extract f b g). cbn [f_embed xap_format]. now rewrite xap_embed_wf_eq. Qed.
+Lemma xap_law_hashin_P f b g : xap_wf f = true -> xap_blob_wf b = true -> xap_embed f b = Ok g -> xap_hashin g = xap_hashin f.
+Proof. intros Hw Hb He. apply (xap_law_hashin f b g). cbn [f_embed xap_format]. now rewrite xap_embed_wf_eq. Qed.
+Lemma xap_law_payload_P f b g : xap_wf f = true -> xap_blob_wf b = true -> xap_embed f b = Ok g -> xap_payload g = xap_payload f.
+Proof. intros Hw Hb He. apply (xap_law_payload f b g). cbn [f_embed xap_format]. now rewrite xap_embed_wf_eq. Qed.
+Lemma xap_format_laws : law_extract bytes xap_format /\ law_hashin bytes xap_format /\ law_payload bytes xap_format.
+Proof. exact (conj xap_law_extract (conj xap_law_hashin xap_law_payload)). Qed.
+Lemma xap_wf_preserved_P f b g : xap_wf f = true -> xap_blob_wf b = true -> xap_embed f b = Ok g -> xap_wf g = true.
+Proof. intros Hw Hb He. apply (xap_wf_preserved f b g). now rewrite xap_embed_wf_eq. Qed.
+Lemma xap_embed_defined_P f b : xap_wf f = true -> xap_blob_wf b = true -> exists g, xap_embed f b = Ok g.
+Proof. intros Hw Hb. destruct (xap_embed_defined f b Hw Hb) as (g & _ & E). now exists g. Qed.
